@@ -5,8 +5,61 @@ from fractions import Fraction as F
 from harness import core, fr
 from harness.core import gq, gbool, gstr, glist, gopt, gnat
 
-HEADER = """From FrameModel Require Import Num.QcTac Geometry.Rect Cases.Cmp Alloc.Alloc Cases.CmpAlloc.
+HEADER = """From FrameModel Require Import Num.QcTac Geometry.Rect Cases.Cmp Alloc.Alloc Alloc.Thr Cases.CmpAlloc.
 Open Scope Qc_scope."""
+
+# ---------------- thresholds ----------------
+# A threshold of a case is what the caller passes to refine / must_be_refined: a finite value (a Fraction: the exact
+# value of the float) or one of the strings "inf" / "-inf" (model: Alloc/Thr.v TFin / TPosInf / TNegInf).  A case with
+# "tint": True passes whole-number thresholds as Python ints (refine(1), must_be_refined(0)).  NaN is not generated:
+# it is no threshold ("no module exceeds nan" has no agreed reading); what the code does with it is recorded in the
+# evidence (nan_probe) and stated for the model (TNan, C12_mbr_bottom), not judged.
+INF, NINF = "inf", "-inf"
+BIG = F(*(1e308).as_integer_ratio())
+TINY = F(*(5e-324).as_integer_ratio())
+EXTREME = [INF, NINF, BIG, -BIG, F(-1), F(0), F(1), F(2), 1 + F(1, 2 ** 52), 1 - F(1, 2 ** 53), TINY, -TINY,
+           F(-1, 2 ** 60)]
+
+
+def thr_arg(t, ints=False):
+    """the Python value handed to the code"""
+    if isinstance(t, str):
+        return float(t)
+    t = core.frac(t)
+    if ints and t.denominator == 1 and abs(t) < 2 ** 53:
+        return int(t)
+    return float(t)
+
+
+def gthr(t):
+    if isinstance(t, str):
+        return {"inf": "TPosInf", "-inf": "TNegInf"}[t]
+    t = core.frac(t)
+    if max(abs(t.numerator), t.denominator) >= 2 ** 64 and t.denominator & (t.denominator - 1) == 0:
+        m, e = t.numerator, -(t.denominator.bit_length() - 1)       # m * 2^e, m odd (Cases/CmpAlloc.v qdy)
+        while m % 2 == 0:
+            m //= 2
+            e += 1
+        return f"(TFin (qdy ({m})%Z ({e})%Z))"
+    return f"(TFin {gq(t)})"
+
+
+def thr_le(x, t):
+    """x <= t for a finite ratio x"""
+    if isinstance(t, str):
+        return t == INF
+    return core.frac(x) <= core.frac(t)
+
+
+def thr_key(t):
+    return t if isinstance(t, str) else core.frac(t)
+
+
+def thr_show(t):
+    if isinstance(t, str):
+        return t
+    t = core.frac(t)
+    return str(t) if t.denominator < 10 ** 6 and abs(t) < 10 ** 6 else repr(float(t))
 
 RATIO_F = 0.01          # the sliver ratio griddify passes to x_cuttable / y_cuttable
 MODS = ["M1", "M2", "M3", "a_b", "Z9"]
@@ -142,6 +195,64 @@ def alloc_obs(a):
             "centers": {m: [a.center(m).x, a.center(m).y] for m in mods}}
 
 
+REFINE_LIMIT_S = 120      # a refinement that the harness predicts to produce at most 300 cells returns in well under a second
+
+
+class time_limit:
+    """refine(t, 16) on a cell that must NOT be cut returns at once; an implementation that cuts it builds 65536 cells and
+    the constructor's quadratic overlap check never returns: reported as a failed call instead of hanging the run"""
+
+    def __init__(self, seconds):
+        self.seconds = seconds
+
+    def __enter__(self):
+        import signal
+        self.old = None
+        try:
+            self.old = signal.signal(signal.SIGALRM, self._fire)
+            signal.alarm(self.seconds)
+        except ValueError:          # not the main thread: no limit
+            self.old = None
+
+    @staticmethod
+    def _fire(signum, frame):
+        raise TimeoutError("refine did not return")
+
+    def __exit__(self, *exc):
+        import signal
+        if self.old is not None:
+            signal.alarm(0)
+            signal.signal(signal.SIGALRM, self.old)
+        return False
+
+
+def _refine_size(a, o):
+    """cells after refine(o[1], o[2]) according to the property (the harness' own reading of the selected cells)"""
+    k = sum(1 for x in a.allocations if not x.rect.fixed and len(x.alloc) > 0 and all(thr_le(v, o[1]) for v in x.alloc.values()))
+    return len(a.allocations) + k * (2 ** max(o[2], 0) - 1)
+
+
+def loop_obs(a, t, ints, spec):
+    """the refine-while-needed loop of the callers, at most spec[1] rounds of refine(t, spec[0]):
+    [[cells before the round, cells after it], ...] and whether the loop had stopped"""
+    levels, rounds = spec
+    out = []
+    for _ in range(rounds):
+        if not a.must_be_refined(thr_arg(t, ints)):
+            return {"rounds": out, "stopped": True}
+        if _refine_size(a, ["refine", t, levels]) > 150:
+            return {"rounds": out, "stopped": None}
+        before = cells_obs(a)
+        try:
+            with time_limit(REFINE_LIMIT_S):
+                a = a.refine(thr_arg(t, ints), levels)
+        except Exception as e:
+            out.append([before, type(e).__name__])
+            return {"rounds": out, "stopped": None}
+        out.append([before, cells_obs(a)])
+    return {"rounds": out, "stopped": not a.must_be_refined(thr_arg(t, ints))}
+
+
 def run_impl(case):
     from frame.geometry.geometry import Rectangle
     Rectangle.undefine_epsilon()
@@ -152,28 +263,32 @@ def run_impl(case):
             a = build_alloc(case["cells"])
         except Exception as e:      # rejected: the class of the exception is not compared
             return {"init": None, "err": type(e).__name__}
-        obs = {"init": alloc_obs(a), "mbr": [bool(a.must_be_refined(float(t))) for t in case["ths"]], "steps": []}
+        ii = bool(case.get("tint"))
+        obs = {"init": alloc_obs(a), "mbr": [bool(a.must_be_refined(thr_arg(t, ii))) for t in case["ths"]], "steps": []}
         # does refining at t change the allocation?  (C12: must_be_refined <-> refine changes it)
         ch = []
         for t in case["ths"]:
             try:
                 if len(a.allocations) > 100:
                     raise AssertionError("too large")
-                b = a.refine(float(t))
+                b = a.refine(thr_arg(t, ii))
                 ch.append(len(b.allocations) != len(a.allocations) or
                           not same_cells(alloc_obs(b)["cells"], obs["init"]["cells"]))
             except Exception as e:
                 ch.append(type(e).__name__)
         obs["refine_changes"] = ch
+        if case.get("loop"):
+            obs["loop"] = [loop_obs(a, t, ii, case["loop"]) for t in case["ths"]]
         for o in case["ops"]:
             md = max(x.depth for x in a.allocations)
-            if o[0] == "refine" and len(a.allocations) * 2 ** o[2] > 200 or len(a.allocations) > 150 or \
+            if o[0] == "refine" and _refine_size(a, o) > 300 or len(a.allocations) > 150 or \
                     o[0] == "uniform" and sum(2 ** (md - x.depth) for x in a.allocations) > 200:
                 break       # keep the quadratic overlap check of the constructor affordable
             before = alloc_obs(a)
             try:
                 if o[0] == "refine":
-                    b = a.refine(float(o[1]), o[2])
+                    with time_limit(REFINE_LIMIT_S):
+                        b = a.refine(thr_arg(o[1], ii), o[2])
                 elif o[0] == "uniform":
                     b = a.uniform_refinement_depth()
                 else:
@@ -183,7 +298,7 @@ def run_impl(case):
                 break
             after = alloc_obs(b)
             obs["steps"].append({"before": before, "after": after,
-                                 "mbr_after": [bool(b.must_be_refined(float(t))) for t in case["ths"]],
+                                 "mbr_after": [bool(b.must_be_refined(thr_arg(t, ii))) for t in case["ths"]],
                                  "src_unchanged": alloc_obs(a) == before})
             a = b
         return obs
@@ -213,8 +328,8 @@ def gcells(cs):
 
 def gop(o):
     if o[0] == "refine":
-        return f"(OpRefine {gq(o[1])} {gnat(o[2])})"
-    return "OpUniform" if o[0] == "uniform" else "OpGriddify"
+        return f"(XRefine {gthr(o[1])} {gnat(o[2])})"
+    return "XUniform" if o[0] == "uniform" else "XGriddify"
 
 
 def to_coq(case, obs):
@@ -239,10 +354,23 @@ def to_coq(case, obs):
 
     parts += areas(obs["init"], C0)
     for t, b in zip(case["ths"], obs["mbr"]):
-        parts.append(f"Bool.eqb (must_be_refined {gq(t)} {C0}) {gbool(b)}")
+        parts.append(f"Bool.eqb (must_be_refined_x {gthr(t)} {C0}) {gbool(b)}")
+    for t, lo in zip(case["ths"], obs.get("loop", [])):
+        # the loop of the callers on the model, for as many rounds as the implementation was followed
+        done = [r for r in lo["rounds"] if not isinstance(r[1], str)]
+        if len(done) != len(lo["rounds"]):
+            parts.append("false")       # a round raised: refine_loop never does (C12_refine_loop_progress)
+            continue
+        last = gcells(sorted_cells(done[-1][1])) if done else gcells(sorted_cells(obs["init"]["cells"]))
+        lv, fuel = gnat(case["loop"][0]), gnat(len(done) + (1 if lo["stopped"] else 0))
+        if lo["stopped"]:
+            parts.append(f"match refine_loop {fuel} {aeps} {gthr(t)} {lv} {C0} with LoopDone cs => cells_same cs {last} | _ => false end")
+        else:
+            parts.append(f"match refine_loop {fuel} {aeps} {gthr(t)} {lv} {C0} with LoopOutOfFuel cs => cells_same cs {last} "
+                         f"&& must_be_refined_x {gthr(t)} cs | _ => false end")
     for o, st in zip(case["ops"], obs["steps"]):
         B = gcells(st["before"]["cells"])
-        call = f"run_op {eps} {aeps} {q} {gop(o)} {B}"
+        call = f"run_xop {eps} {aeps} {q} {gop(o)} {B}"
         if st["after"] is None:
             parts.append(f"match {call} with None => true | Some _ => false end")
         else:
@@ -250,7 +378,7 @@ def to_coq(case, obs):
             parts.append(f"opt_eqb cells_same ({call}) (Some {gcells(sorted_cells(st['after']['cells']))})")
             parts += areas(st["after"], A)
             for t, b in zip(case["ths"], st["mbr_after"]):
-                parts.append(f"Bool.eqb (must_be_refined {gq(t)} {A}) {gbool(b)}")
+                parts.append(f"Bool.eqb (must_be_refined_x {gthr(t)} {A}) {gbool(b)}")
     return " && ".join(f"({p})" for p in parts)
 
 
@@ -319,7 +447,7 @@ def children_of(parent, cells):
 
 
 def splittable(c, t):
-    return (not c["rect"]["fixed"]) and len(c["alloc"]) > 0 and all(core.frac(q) <= t for _, q in c["alloc"])
+    return (not c["rect"]["fixed"]) and len(c["alloc"]) > 0 and all(thr_le(q, t) for _, q in c["alloc"])
 
 
 def shrink(case):
@@ -360,7 +488,7 @@ def nontrivial(c):
 # observed after a setfixed step are handed to the model, which only checks that they are a possible outcome (the
 # addressed cell carries the flag; a cell whose flag changed has the geometry of the addressed cell) and goes on from them.
 # =====================================================================================
-HEADER_H = """From FrameModel Require Import Num.QcTac Geometry.Rect Cases.Cmp Alloc.Alloc Alloc.Hist Cases.CmpAlloc.
+HEADER_H = """From FrameModel Require Import Num.QcTac Geometry.Rect Cases.Cmp Alloc.Alloc Alloc.Thr Alloc.Hist Cases.CmpAlloc.
 Open Scope Qc_scope."""
 
 MAX_CELLS = 140          # per allocation (the constructor's overlap check is quadratic)
@@ -384,7 +512,7 @@ def areas_obs(a):
 def _predicted_size(a, o):
     n = len(a.allocations)
     if o[0] == "refine":
-        return n * 2 ** max(o[2], 0)
+        return _refine_size(a, o) if o[2] > 4 else n * 2 ** max(o[2], 0)
     if o[0] == "uniform":
         md = max(x.depth for x in a.allocations)
         return sum(2 ** (md - x.depth) for x in a.allocations)
@@ -405,6 +533,7 @@ def run_hist_impl(case):
         except Exception as e:      # rejected: the class of the exception is not compared
             return {"init": None, "err": type(e).__name__}
         obs = {"init": {"cells": cells_obs(A[0])}, "steps": []}
+        ii = bool(case.get("tint"))
         for h in case["hops"]:
             k = h[1] % len(A)
             a = A[k]
@@ -417,7 +546,8 @@ def run_hist_impl(case):
                     break
                 try:
                     if o[0] == "refine":
-                        b = a.refine(float(o[1]), o[2])
+                        with time_limit(REFINE_LIMIT_S):
+                            b = a.refine(thr_arg(o[1], ii), o[2])
                     elif o[0] == "uniform":
                         b = a.uniform_refinement_depth()
                     else:
@@ -445,7 +575,7 @@ def run_hist_impl(case):
                 a.allocations[i].rect.fixed = bool(h[3])
                 st["fixed"] = [[[x.rect.center.x, x.rect.center.y] for x in y.allocations if x.rect.fixed] for y in A]
             elif h[0] == "mbr":
-                st["val"] = bool(a.must_be_refined(float(h[2])))
+                st["val"] = bool(a.must_be_refined(thr_arg(h[2], ii)))
             elif h[0] == "maxdepth":
                 st["val"] = int(a.max_refinement_depth())
             elif h[0] == "numrect":
@@ -479,7 +609,7 @@ def ghop(h, st):
     if h[0] == "setfixed":
         return f"(HSetFixed {gnat(h[1])} {gq(st['at'][0])} {gq(st['at'][1])} {gbool(h[3])} {gfixed(st['fixed'])})"
     if h[0] == "mbr":
-        return f"(HMbr {gnat(h[1])} {gq(h[2])})"
+        return f"(HMbr {gnat(h[1])} {gthr(h[2])})"
     name = {"maxdepth": "HMaxDepth", "numrect": "HNumRect", "areas": "HAreas"}[h[0]]
     return f"({name} {gnat(h[1])})"
 
@@ -516,6 +646,108 @@ def hist_to_coq(case, obs):
     parts = [f"opt_eqb cells_same (mk_allocation {aeps} {C0}) (Some {gcells(obs['init']['cells'])})",
              f"match hist {eps} {aeps} {q} {C0} {ops} with Some l => list_eqb (hobs_eqb {scale}) l {exp} | None => false end"]
     return " && ".join(f"({p})" for p in parts + extra)
+
+
+# ---------------- extreme arguments (C12: "all thresholds and level counts") ----------------
+def _cell(box, alloc, fixed=False, depth=0, region="_"):
+    x0, y0, x1, y1 = box
+    return {"rect": {"cx": (x0 + x1) / 2, "cy": (y0 + y1) / 2, "w": x1 - x0, "h": y1 - y0, "fixed": fixed, "hard": fixed,
+                     "region": region, "loc": "NOPOLY"}, "alloc": alloc, "depth": depth}
+
+
+EXT_LAYOUTS = ["all-empty", "fixed+empty", "mixed", "one-empty", "one-full", "zero-ratio", "all-occupied"]
+EXT_LEVELS = [1, 2, 8, 16]
+
+
+def ext_cells(rng, layout):
+    """small layouts around the cells the extreme thresholds decide differently: empty maps, ratios 0 and 1, fixed"""
+    x0, y0 = F(rng.randrange(0, 5)), F(rng.randrange(0, 5))
+    w, h = F(rng.choice([2, 4, 8])), F(rng.choice([2, 4, 8]))
+    boxes = [(x0 + i * w, y0, x0 + (i + 1) * w, y0 + h) for i in range(3)] + [(x0, y0 + h, x0 + 3 * w, y0 + 2 * h)]
+    d = lambda: rng.choice([0, 0, 1, 3])
+    if layout == "all-empty":
+        return [_cell(b, [], depth=d()) for b in boxes[:rng.choice([2, 3, 4])]]
+    if layout == "fixed+empty":
+        return [_cell(boxes[0], [["FX", F(1)]], True, d()), _cell(boxes[1], [], depth=d()),
+                _cell(boxes[3], [["M1", rng.choice(RATIOS[1:])], ["FX", F(0)]], True, d())]
+    if layout == "mixed":
+        return [_cell(boxes[0], [["M1", F(1, 4)], ["M2", F(1, 2)]], depth=d()), _cell(boxes[1], [], depth=d()),
+                _cell(boxes[3], [["M3", F(1)]], depth=d())]
+    if layout == "one-empty":
+        return [_cell(boxes[0], [], depth=d())]
+    if layout == "one-full":
+        return [_cell(boxes[0], [["M1", F(1)]], depth=d())]
+    if layout == "zero-ratio":
+        return [_cell(boxes[0], [["M1", F(0)]], depth=d()), _cell(boxes[1], [["M1", F(1, 2)], ["M2", F(0)]], depth=d()),
+                _cell(boxes[2], [["M2", F(1)]], depth=d())]
+    return [_cell(b, [[rng.choice(MODS[:2]), rng.choice(RATIOS[1:])]], depth=d()) for b in boxes[:rng.choice([2, 3])]]
+
+
+def gen_extreme_case(rng, idx):
+    """systematic: every extreme threshold x level count 1, 2, 8, 16 x degenerate layout, on a fresh object: must_be_refined
+    and refine probed at ALL extreme thresholds, the callers' loop followed for two rounds at each of them"""
+    t = EXTREME[idx % len(EXTREME)]
+    lv = EXT_LEVELS[(idx // len(EXTREME)) % len(EXT_LEVELS)]
+    layout = EXT_LAYOUTS[(idx + idx // len(EXTREME)) % len(EXT_LAYOUTS)]
+    cells = ext_cells(rng, layout)
+    ops = [["refine", t, lv]]
+    if rng.random() < 0.5:
+        ops.append(rng.choice([["uniform"], ["griddify"], ["refine", rng.choice(EXTREME), rng.choice(EXT_LEVELS)]]))
+    return {"kind": "ext-" + layout, "cells": cells, "ops": ops, "ths": list(EXTREME), "loop": [rng.choice([1, 1, 2]), 2],
+            "tint": rng.random() < 0.4, "eps": F(1, 2 ** 20), "aeps": rng.choice([F(1, 2 ** 10), F(0)])}
+
+
+def gen_extreme_hist(rng, idx):
+    """the same on shared objects: every occupied refinable cell is flagged fixed in place (then only empty cells remain
+    refinable), must_be_refined / refine asked at an extreme threshold before, in between and after un-flagging one"""
+    t = EXTREME[idx % len(EXTREME)]
+    lv = EXT_LEVELS[(idx // len(EXTREME) + idx) % len(EXT_LEVELS)]
+    cells = ext_cells(rng, rng.choice(["mixed", "mixed", "all-occupied", "zero-ratio", "fixed+empty"]))
+    occ = [i for i, c in enumerate(cells) if c["alloc"] and not c["rect"]["fixed"]]
+    hops = [["mbr", 0, t]]
+    hops += [["setfixed", 0, i, True] for i in occ]
+    hops += [["mbr", 0, t], ["apply", 0, ["refine", t, lv]], ["mbr", 0, INF]]
+    if occ:
+        hops += [["setfixed", 0, rng.choice(occ), False], ["mbr", 0, t], ["apply", 0, ["refine", t, rng.choice([1, 2])]],
+                 ["mbr", 1, t]]
+    return {"kind": "hist-ext", "cells": cells, "hops": hops[:12], "tint": rng.random() < 0.4,
+            "eps": F(1, 2 ** 20), "aeps": rng.choice([F(1, 2 ** 10), F(0)])}
+
+
+def extremize(rng, case):
+    """a generated case with some of its thresholds replaced by extreme ones (the same threshold by the same value
+    everywhere in the case, so that must_be_refined / refine pairs stay pairs) and some level counts by 8 / 16"""
+    m = {}
+
+    def sub(t):
+        k = thr_key(t)
+        if k not in m:
+            m[k] = rng.choice(EXTREME) if rng.random() < 0.6 else t
+        return m[k]
+
+    def subop(o):
+        if o[0] != "refine":
+            return o
+        return ["refine", sub(o[1]), rng.choice([8, 16]) if rng.random() < 0.12 and o[2] > 0 else o[2]]
+
+    case = dict(case, tint=rng.random() < 0.3)
+    if is_hist(case):
+        hops = []
+        for h in case["hops"]:
+            if h[0] == "apply":
+                hops.append(["apply", h[1], subop(h[2])])
+            elif h[0] == "mbr":
+                hops.append(["mbr", h[1], sub(h[2])])
+            else:
+                hops.append(h)
+        case["hops"] = hops
+        case["kind"] = case["kind"] + ("+" if "/" in case["kind"] else "/") + "extreme"
+    elif case.get("stream") == "decimal":
+        case["ths"] = list(case["ths"]) + [INF, NINF, F(2)]
+    else:
+        case["ops"] = [subop(o) for o in case["ops"]]
+        case["ths"] = list(case["ths"]) + rng.sample(EXTREME, 3)
+    return case
 
 
 # ---------------- generator of histories ----------------
